@@ -13,7 +13,7 @@ def cnt (s : State) : Nat :=
 
 def AwBusy (s : State) : Prop := s.aw = .loop ∨ ∃ w r c, s.aw = .onErr w r c
 
-structure InvA (s : State) : Prop where
+structure InvW (s : State) : Prop where
   ctx1 : s.poolC = true → s.runC = true
   ctx2 : s.runC = true → s.startC = true
   retCancel : ∀ r, s.main = .returned r → s.poolC = true
@@ -26,7 +26,6 @@ structure InvA (s : State) : Prop where
   wd1 : s.aw = .finished → s.waitDone = 1
   wd2 : s.waitDone ≤ 1
   toWait : s.aw ≠ .off → s.toWait = cnt s
-  loopPos : s.aw = .loop → 0 < s.toWait
   fin : s.aw = .finished → s.toWait = 0
   closed : s.closedErr = true ↔ s.aw = .finished
   startDone : s.startPc = .done ↔ s.startRes.isSome = true
@@ -38,7 +37,274 @@ structure InvA (s : State) : Prop where
   onErrChk : ∀ w r, s.aw = .onErr w r true → s.runResOpen = true
   nopanic : s.panicked = false
 
+/-- the invariant between two steps: `InvW` plus "the await loop is only entered with `toWait > 0`" -/
+abbrev InvA (s : State) : Prop := InvW s ∧ (s.aw = .loop → 0 < s.toWait)
+
 theorem invA_init : InvA init := by
-  constructor <;> simp [init, AwBusy, cnt]
+  refine ⟨?_, ?_⟩
+  · constructor <;> simp [init, AwBusy, cnt]
+  · simp [init]
+
+
+theorem getElem?_facts {α} (l : List α) (i : Nat) (x : α) (h : l[i]? = some x) :
+    (l.eraseIdx i).length + 1 = l.length ∧ l ≠ [] := by
+  have hi : i < l.length := by
+    rcases Nat.lt_or_ge i l.length with h' | h'
+    · exact h'
+    · rw [List.getElem?_eq_none h'] at h; cases h
+  constructor
+  · rw [List.length_eraseIdx]; simp [hi]; omega
+  · intro e; subst e; simp at hi
+
+macro "inv_destruct" h:ident : tactic => `(tactic|
+  obtain ⟨⟨h1,h2,h3,h4,h5,h6,h7,h8,h9,h10,h12,h13,h14,h15,h16,h17,h18,h19,h20,h21⟩, h11⟩ := $h)
+
+
+theorem nil_iff_length {α} (l : List α) : l = [] ↔ l.length = 0 := by cases l <;> simp
+
+/-- goals of the form `InvW s'` -/
+macro "w_tac" : tactic => `(tactic|
+  (constructor <;>
+   simp only [cancelAll, mainReturn, finish, checkAll, afterErr, handleRes, addErr, sendRes, nextWait, AwBusy, cnt,
+     Ret.isCtxError, retAllowed, List.length_append, List.length_cons, List.length_nil, List.length_set] at * <;> grind))
+
+macro "inv_tac" : tactic => `(tactic|
+  (refine ⟨?_, ?_⟩
+   · w_tac
+   · (simp only [cancelAll, mainReturn, finish, checkAll, afterErr, handleRes, addErr, sendRes, nextWait, AwBusy, cnt,
+        Ret.isCtxError, retAllowed, List.length_append, List.length_cons, List.length_nil, List.length_set] at *
+      grind)))
+
+macro "w_destruct" h:ident : tactic => `(tactic|
+  obtain ⟨h1,h2,h3,h4,h5,h6,h7,h8,h9,h10,h12,h13,h14,h15,h16,h17,h18,h19,h20,h21⟩ := $h)
+
+theorem w_finish (s : State) (h : InvW s) : InvA (finish s) := by
+  w_destruct h
+  unfold finish
+  split
+  · refine ⟨?_, ?_⟩
+    · w_tac
+    · simp
+  · refine ⟨?_, ?_⟩
+    · w_tac
+    · grind
+
+theorem w_checkAll (s : State) (h : InvW s) (hl : s.aw = .loop) (ho : s.runResOpen = true) : InvW (checkAll s) := by
+  w_destruct h
+  have hb := nil_iff_length s.buf
+  have hv := nil_iff_length s.live
+  unfold checkAll
+  split
+  · split
+    · simp_all
+    · split
+      · grind
+      · w_tac
+  · w_tac
+
+theorem checkAll_aw (s : State) : (checkAll s).aw = s.aw := by
+  unfold checkAll
+  repeat' split
+  all_goals rfl
+
+theorem w_afterErr (s : State) (chk : Bool) (h : InvW { s with aw := .loop })
+    (ho : chk = true → s.runResOpen = true) : InvA (afterErr s chk) := by
+  unfold afterErr
+  apply w_finish
+  split
+  · rename_i hc
+    exact w_checkAll _ h rfl (ho hc)
+  · exact h
+
+theorem w_handleRes (s : State) (w : Wrap) (r : Ret) (done chk : Bool) (h : InvW s) (hl : s.aw = .loop)
+    (ho : chk = true → s.runResOpen = true) : InvA (handleRes s w r done chk) := by
+  unfold handleRes
+  split
+  · apply w_afterErr _ _ _ ho
+    have e : { s with aw := AwPc.loop } = s := by cases s; simp_all
+    rw [e]; exact h
+  · refine ⟨?_, ?_⟩
+    · w_destruct h; w_tac
+    · simp
+
+section
+variable (cfg : Cfg) (s : State)
+
+theorem a_ext (h : InvA s) : InvA (step cfg s .extCancel) := by
+  simp only [step]; inv_destruct h; inv_tac
+
+theorem a_warm (o) (h : InvA s) : InvA (step cfg s (.warm o)) := by
+  simp only [step]
+  split
+  · inv_destruct h; cases o <;> inv_tac
+  · exact h
+
+theorem a_sched (o) (h : InvA s) : InvA (step cfg s (.sched o)) := by
+  simp only [step]
+  split
+  · inv_destruct h; cases o <;> inv_tac
+  · exact h
+
+theorem a_provRet (r) (h : InvA s) : InvA (step cfg s (.provRet r)) := by
+  simp only [step]
+  split
+  · inv_destruct h; cases r <;> inv_tac
+  · exact h
+
+theorem a_aggRet (r) (h : InvA s) : InvA (step cfg s (.aggRet r)) := by
+  simp only [step]
+  split
+  · inv_destruct h; cases r <;> inv_tac
+  · exact h
+
+theorem a_rps (h : InvA s) : InvA (step cfg s .rpsFinished) := by
+  simp only [step]
+  split
+  · inv_destruct h; inv_tac
+  · exact h
+
+theorem a_startFirst (o) (h : InvA s) : InvA (step cfg s (.startFirst o)) := by
+  simp only [step]
+  split
+  · inv_destruct h; cases o <;> inv_tac
+  · exact h
+
+theorem a_startTick (h : InvA s) : InvA (step cfg s .startTick) := by
+  simp only [step]
+  split
+  · inv_destruct h; inv_tac
+  · exact h
+
+theorem a_startEnd (h : InvA s) : InvA (step cfg s .startEnd) := by
+  simp only [step]
+  split
+  · inv_destruct h; inv_tac
+  · exact h
+
+theorem a_instCreate (i o) (h : InvA s) : InvA (step cfg s (.instCreate i o)) := by
+  simp only [step]
+  split
+  · rename_i id hl
+    have hf := getElem?_facts _ _ _ hl
+    inv_destruct h; cases o <;> inv_tac
+  · exact h
+
+theorem a_instRet (i r) (h : InvA s) : InvA (step cfg s (.instRet i r)) := by
+  simp only [step]
+  split
+  · rename_i id g hl
+    have hf := getElem?_facts _ _ _ hl
+    split
+    · exact h
+    · inv_destruct h; cases r <;> inv_tac
+  · exact h
+
+theorem a_awaitProv (h : InvA s) : InvA (step cfg s .awaitProv) := by
+  simp only [step]
+  split
+  · rename_i r _ _
+    apply w_handleRes
+    · inv_destruct h; w_tac
+    · assumption
+    · simp
+  · exact h
+
+theorem a_awaitAgg (h : InvA s) : InvA (step cfg s .awaitAgg) := by
+  simp only [step]
+  split
+  · rename_i r _ _
+    apply w_handleRes
+    · inv_destruct h; w_tac
+    · assumption
+    · simp
+  · exact h
+
+theorem a_awaitStart (h : InvA s) : InvA (step cfg s .awaitStart) := by
+  simp only [step]
+  split
+  · rename_i n r _ _ _
+    apply w_handleRes
+    · inv_destruct h; w_tac
+    · assumption
+    · inv_destruct h; simp only [cnt] at *; grind
+  · exact h
+
+theorem a_awaitRun (h : InvA s) : InvA (step cfg s .awaitRun) := by
+  simp only [step]
+  split
+  · rename_i id r rest _ _ _
+    split
+    · apply w_afterErr
+      · inv_destruct h; split <;> w_tac
+      · intro _; split <;> assumption
+    · apply w_handleRes
+      · inv_destruct h; w_tac
+      · assumption
+      · intro _; assumption
+  · exact h
+
+theorem a_errDeliver (h : InvA s) : InvA (step cfg s .errDeliver) := by
+  simp only [step]
+  split
+  · rename_i w r chk _ _
+    apply w_afterErr
+    · inv_destruct h; w_tac
+    · intro hc; subst hc; inv_destruct h; simp only [mainReturn, cancelAll]; grind
+  · exact h
+
+theorem a_errSuppress (h : InvA s) : InvA (step cfg s .errSuppress) := by
+  simp only [step]
+  split
+  · rename_i w r chk _
+    have key : InvA (afterErr s chk) := by
+      apply w_afterErr
+      · inv_destruct h; w_tac
+      · intro hc; subst hc; inv_destruct h; grind
+    repeat' split
+    all_goals first | exact h | exact key
+  · exact h
+
+theorem a_mainCancel (h : InvA s) : InvA (step cfg s .mainCancel) := by
+  simp only [step]
+  split
+  · inv_destruct h; inv_tac
+  · exact h
+
+theorem a_mainClosed (h : InvA s) : InvA (step cfg s .mainClosed) := by
+  simp only [step]
+  split
+  · inv_destruct h; inv_tac
+  · exact h
+
+end
+
+theorem step_invA (cfg : Cfg) (s : State) (c : Choice) (h : InvA s) : InvA (step cfg s c) := by
+  cases c
+  · exact a_ext cfg s h
+  · exact a_warm cfg s _ h
+  · exact a_sched cfg s _ h
+  · exact a_provRet cfg s _ h
+  · exact a_aggRet cfg s _ h
+  · exact a_rps cfg s h
+  · exact a_startFirst cfg s _ h
+  · exact a_startTick cfg s h
+  · exact a_startEnd cfg s h
+  · exact a_instCreate cfg s _ _ h
+  · exact a_instRet cfg s _ _ h
+  · exact a_awaitProv cfg s h
+  · exact a_awaitAgg cfg s h
+  · exact a_awaitStart cfg s h
+  · exact a_awaitRun cfg s h
+  · exact a_errDeliver cfg s h
+  · exact a_errSuppress cfg s h
+  · exact a_mainCancel cfg s h
+  · exact a_mainClosed cfg s h
+
+theorem foldl_invA (cfg : Cfg) (cs : List Choice) (s : State) (h : InvA s) : InvA (cs.foldl (step cfg) s) := by
+  induction cs generalizing s with
+  | nil => exact h
+  | cons c cs ih => exact ih _ (step_invA cfg s c h)
+
+theorem run_invA (cfg : Cfg) (cs : List Choice) : InvA (run cfg cs) := foldl_invA cfg cs _ invA_init
 
 end Pandora.Proofs.C05
